@@ -261,4 +261,6 @@ MUTATIONS += [
     dict(id="r12b-tucker-pairing", file=TOPT, old="            tuple((0, 1, i + 2) for i in range(arity))", new="            tuple((0, 1, arity + 1 - i) for i in range(arity))", expect={"C02": ["R12b:cirkit.backend.torch.optimization.layers.apply_tucker"], "C01": ["R12b:cirkit.backend.torch.optimization.layers.apply_tucker"]}),
     dict(id="r12b-einsum-flatten-order", patch="seeded/C03a/patch.diff", expect={"C02": ["R12b:cirkit.backend.torch.optimization.parameters.apply_sum_outer_prod_einsum"], "C03": ["R12b:cirkit.backend.torch.optimization.parameters.apply_sum_outer_prod_einsum"]}),
     dict(id="q-kron-forward-loop-names", file=TINNER, old="            y0 = y0.unsqueeze(dim=-1)  # (F, B, K, 1).\n            y1 = x[:, i].unsqueeze(dim=-2)  # (F, B, 1, Ki).", new="            y0 = y0[..., None]  # (F, B, K, 1).\n            y1 = x[:, i].unsqueeze(dim=2)  # (F, B, 1, Ki).", expect={}, quiet=True),
+    dict(id="l2-kron-perm-inverse", patch="seeded/C04b/patch.diff", expect={"C04": ["L2:cirkit.symbolic.operators.multiply_kronecker_layers:permutation"]}),
+    dict(id="l2-kron-perm-axes", file=OPS, old="axes=sum(((1 + a, 1 + a + arity) for a in range(arity)), start=(0,))", new="axes=sum(((1 + a + arity, 1 + a) for a in range(arity)), start=(0,))", expect={"C04": ["L2:cirkit.symbolic.operators.multiply_kronecker_layers:permutation"]}),
 ]
